@@ -7,7 +7,14 @@ Local Open Scope N_scope.
 (* one case = one history on the real store: configuration, operations (with the oracles the
    implementation chose), the results it returned, its normalised mutating-call trace, and for
    every crash point (prefix of the trace, 0..n) what the REAL recovery showed *)
-Record case := mkcase { c_cfg : cfg; c_ops : list op; c_outs : list out; c_trace : list call; c_recs : list robs }.
+(* [c_rle]: the per-crash-point observations, run-length encoded (consecutive crash points often show
+   the same recovered store) *)
+Record case := mkcase { c_cfg : cfg; c_ops : list op; c_outs : list out; c_trace : list call; c_rle : list (nat * robs) }.
+Definition c_recs (c : case) : list robs := flat_map (fun p => repeat (snd p) (fst p)) (c_rle c).
+(* abbreviations used by the harness to keep the cases files small *)
+Definition p3 : list (bool * bool * bool) := [(true, true, true); (true, true, true); (true, true, true)].
+Definition n3 : list (option bytes) := [None; None; None].
+Definition ab : kobs := absent.
 
 Definition out_eqb (a b : out) : bool :=
   match a, b with
